@@ -9,7 +9,7 @@
     W of 3.4.2 is a cyclic window, `index_alpha` = "zz-th element of W" with NO u32/u64 overflow ·
     add_and_mul = a + b + 2·lo(a)·lo(b) mod 2^64 without overflow of the plain `*` · gb/p = GB/P ·
     fill_block = G (row/column index sets) with / without XOR.
-  The assembled theorem `argon2_eq_rfc` is stated in full at the end; see there for what is proved of it.
+  The assembled theorem `argon2_eq_rfc` is proved in Props/C11/Argon2Full.lean (see section 7 at the end).
   Spec-vs-world: the three RFC 9106 section 5 vectors are evaluated by the correspondence run (`cxdrv spec`), not
   by the kernel (a 32-KiB Argon2 is too slow for `decide`); there is no independent Argon2 oracle in the sandbox.
 -/
@@ -223,33 +223,23 @@ example : Pos { y := .id, v := 0x13, t := 2, m := 520, p := 1, T := 32 } 1 0 2 1
 
 /-! ### 7. the assembled statement
 
-FULL STATEMENT (C11, model level) — NOT yet proved as one theorem:
+FULL STATEMENT (C11, model level) — PROVED in Props/C11/Argon2Full.lean (`argon2_eq_rfc`, and
+`argon2_builder_eq_rfc` for the `Params` the builder chain returns):
 
     theorem argon2_eq_rfc (c : Spec.Argon2.Params) (pwd salt key aad : Bytes)
         (hv : Spec.Argon2.valid c pwd salt key aad = true) (params : Impl.Argon2.Params) (hc : Corr params c) :
         Impl.Argon2.argon2_at params pwd salt key aad c.T = some (Spec.Argon2.argon2 c pwd salt key aad) ∧
         Impl.Argon2.argon2 c.T params pwd salt key aad = some (Spec.Argon2.argon2 c pwd salt key aad)
 
-    (with `builder_geometry` / `builder_corr`: for `params` = what the builder chain returns for (y, v, t, m, p)).
-
-What is proved of it (all above, each for all inputs of its domain): H_0 (`H0_layout`), H' (`hprime_eq_rfc`,
-`hprime_block_init_eq_rfc`), the geometry and the builder (`geometry_rfc`, `builder_geometry`, `builder_corr`), the
-addressing predicate, W and `index_alpha` (`refSet_window`, `index_alpha_eq_rfc`), GB/P/G (`add_and_mul_formula`,
-`p_eq_P`, `fill_block_eq_G`, `fill_block_xor_eq_G`), the address blocks (`next_addresses_eq_rfc`,
-`input_block_eq_rfc`), one loop iteration and the segment loop under the invariant (`fill_segment_step_eq_rfc`,
-`fill_segment_loop_eq_rfc`), and — trivially, the two entry points have the same body — `entry_points_agree`.
-
-MISSING LINKS (plumbing, no arithmetic left in them):
-  (a) `fill_segment` prologue: the initial `SegState` satisfies `SegInv` at the starting index (input_block =
-      `addrInput … 0` by `input_block_eq_rfc`; the extra `next_addresses` of pass 0 / slice 0 by
-      `next_addresses_eq_rfc`; `curr_offset`, `prev_offset` by u32 arithmetic), and the Spec's loop over
-      `0..segLen` skips k = 0, 1 in pass 0 / slice 0, so that `fill_segment = Spec.fillSegment`;
-  (b) `process_init` = `Spec.firstBlocks` (from `hprime_block_init_eq_rfc`, writes in range);
-  (c) `process_fill` over `process_positions` = the three nested folds of `Spec.fillMemory`, carrying
-      `blocks.size = p·q` and `lane_length = q`;
-  (d) `process_final` = `Spec.finalBlock` (`0 xor B[0][q−1] = B[0][q−1]`);
-  (e) chaining (a)–(d) with `H0_layout`, `Memory::new` = m' zero blocks and `hprime_eq_rfc`.
-Until then the assembled equality is covered by the correspondence run only (code = Impl = Spec on the C11 grid). -/
+It chains the component theorems of this file (`H0_layout`, `hprime_eq_rfc`, `hprime_block_init_eq_rfc`, the geometry
+and the builder, the addressing predicate, W and `index_alpha`, GB/P/G, the address blocks, one loop iteration and the
+segment loop under the invariant) through the plumbing links
+  (a) `fill_segment` prologue + the Spec's skip of k = 0, 1 in pass 0 / slice 0: `fill_segment = Spec.fillSegment`
+      (Proofs/Argon2Prologue.lean, `fill_segment_eq`);
+  (b) `process_init` = `Spec.firstBlocks`;  (c) `process_fill` over `process_positions` = `Spec.fillMemory`, carrying
+      `blocks.size = p·q` and `lane_length = q`;  (d) `process_final` = `Spec.finalBlock`;
+  (e) `Memory::new` = m' zero blocks, `process` = steps 3–8 (Proofs/Argon2Assemble.lean).
+The correspondence run (code = Impl = Spec on the C11 grid) ties the model to /repo/src/kdf/argon2.rs. -/
 
 /-- `argon2::<T>` and `argon2_at` with a T-byte slice are the same computation (identical bodies) -/
 theorem entry_points_agree (T : Nat) (params : Impl.Argon2.Params) (pwd salt key aad : Bytes) :
